@@ -108,9 +108,64 @@ macro_rules! ark_field_items {
     }};
 }
 
+/// A published constant must not only DENOTE the right value (checked through its canonical
+/// bytes) but be REPRESENTED like any other field element: equal (==, cmp, hash) to the element
+/// parsed from those bytes, and behave identically under negation, addition and subtraction
+/// (an unreduced internal representation passes the byte comparison but not these).
+fn canon<F: FS>(items: &mut Vec<Item>, name: &str, c: F) {
+    let name = format!("{}::{name} is canonically represented", F::NAME);
+    items.push(Item {
+        name,
+        f: Box::new(move || {
+            let fld = refmodel::fld::Fld::new(F::modulus());
+            let v = c.big();
+            let parsed = F::of(&v);
+            let x = F::of(&(F::modulus() / 3u32 * 2u32 + 12345u32));
+            let xb = x.big();
+            truth("c == parse(bytes(c)), both ways", c == parsed && parsed == c && c.cmp(&parsed) == std::cmp::Ordering::Equal && h64(&c) == h64(&parsed))
+                .and(eq_big(&fld.neg(&v), &(-c).big()))
+                .and(eq_big(&fld.add(&v, &xb), &(c + x).big()))
+                .and(eq_big(&fld.sub(&xb, &v), &(x - c).big()))
+                .and(eq_big(&fld.sub(&v, &xb), &(c - x).big()))
+                .and(eq_big(&fld.sub(&BigUint::zero(), &v), &(F::zero() - c).big()))
+                .and(eq_big(&fld.mul(&v, &xb), &(c * x).big()))
+                .and(eq_big(&fld.sqr(&v), &c.i_square().big()))
+                .and(truth("c - c == 0 and c + (-c) == 0", (c - c) == F::zero() && (c + (-c)) == F::zero()))
+        }),
+    });
+}
+
 pub fn items() -> Vec<Item> {
     use decaf377::{Fp, Fq, Fr};
     let mut items: Vec<Item> = vec![];
+    canon::<Fq>(&mut items, "decaf377::ZETA", decaf377::ZETA);
+    canon::<Fq>(&mut items, "MULTIPLICATIVE_GENERATOR", Fq::MULTIPLICATIVE_GENERATOR);
+    canon::<Fq>(&mut items, "TWO_ADIC_ROOT_OF_UNITY", Fq::TWO_ADIC_ROOT_OF_UNITY);
+    canon::<Fq>(&mut items, "QUADRATIC_NON_RESIDUE_TO_TRACE", Fq::QUADRATIC_NON_RESIDUE_TO_TRACE);
+    canon::<Fq>(&mut items, "FIELD_SIZE_POWER_OF_TWO", Fq::FIELD_SIZE_POWER_OF_TWO);
+    canon::<Fq>(&mut items, "ONE", Fq::ONE);
+    canon::<Fq>(&mut items, "ZERO", Fq::ZERO);
+    canon::<Fr>(&mut items, "MULTIPLICATIVE_GENERATOR", Fr::MULTIPLICATIVE_GENERATOR);
+    canon::<Fr>(&mut items, "TWO_ADIC_ROOT_OF_UNITY", Fr::TWO_ADIC_ROOT_OF_UNITY);
+    canon::<Fr>(&mut items, "FIELD_SIZE_POWER_OF_TWO", Fr::FIELD_SIZE_POWER_OF_TWO);
+    canon::<Fr>(&mut items, "ONE", Fr::ONE);
+    canon::<Fr>(&mut items, "ZERO", Fr::ZERO);
+    canon::<Fp>(&mut items, "MULTIPLICATIVE_GENERATOR", Fp::MULTIPLICATIVE_GENERATOR);
+    canon::<Fp>(&mut items, "TWO_ADIC_ROOT_OF_UNITY", Fp::TWO_ADIC_ROOT_OF_UNITY);
+    canon::<Fp>(&mut items, "QUADRATIC_NON_RESIDUE_TO_TRACE", Fp::QUADRATIC_NON_RESIDUE_TO_TRACE);
+    canon::<Fp>(&mut items, "QUADRATIC_NON_RESIDUE", Fp::QUADRATIC_NON_RESIDUE);
+    canon::<Fp>(&mut items, "MINUS_ONE", Fp::MINUS_ONE);
+    canon::<Fp>(&mut items, "FIELD_SIZE_POWER_OF_TWO", Fp::FIELD_SIZE_POWER_OF_TWO);
+    canon::<Fp>(&mut items, "ONE", Fp::ONE);
+    canon::<Fp>(&mut items, "ZERO", Fp::ZERO);
+    {
+        // the generator's coordinates
+        let c = Element::GENERATOR.verif_coords();
+        canon::<Fq>(&mut items, "Element::GENERATOR.X", c[0]);
+        canon::<Fq>(&mut items, "Element::GENERATOR.Y", c[1]);
+        canon::<Fq>(&mut items, "Element::GENERATOR.Z", c[2]);
+        canon::<Fq>(&mut items, "Element::GENERATOR.T", c[3]);
+    }
     field_items!(items, Fq, FieldFacts::fq(), Some(Fq::QUADRATIC_NON_RESIDUE_TO_TRACE.big()));
     field_items!(items, Fr, FieldFacts::fr(), None::<BigUint>);
     field_items!(items, Fp, FieldFacts::fp(), Some(Fp::QUADRATIC_NON_RESIDUE_TO_TRACE.big()));
